@@ -341,7 +341,7 @@ void World::run(const std::vector<int>& prefix) {
         // actions scheduled after the injection behave like further script actions (default order: after network events)
         bool script_done = script_pos >= sc.script.size();
         // a WAIT_HS that can no longer be satisfied (nothing outstanding, network quiet) ends the script
-        if (!script_done && (sc.script[script_pos].k == Action::WAIT_HS) && !app_action_enabled() && all_user_ops_done()) { bool net_def = false; for (auto& e : ev) if (!e.deviation && e.k != Event::APP && (e.k != Event::TIME || running)) net_def = true;   // a running client with a pending timer (back-off pause) may still connect
+        if (!script_done && (sc.script[script_pos].k == Action::WAIT_HS) && !app_action_enabled() && all_user_ops_done()) { bool net_def = false; for (auto& e : ev) if (!e.deviation && e.k != Event::APP && (e.k != Event::TIME || (running && broker->live_conn() < 0))) net_def = true;   // a running client without a connection and with a pending timer (back-off pause) may still connect
             if (!net_def) script_done = true; }
         bool has_net_default = false; for (auto& e : ev) if (!e.deviation && e.k != Event::TIME && e.k != Event::APP) has_net_default = true;
         if (injected && extra_pos < sc.after_inject.size() && script_done && !has_net_default && (!sc.inject || sc.inject->k != Action::DISC || !ops.empty() && [&]{ for (auto& o : ops) if (o.kind == Action::DISC && o.completions == 0) return false; return true; }())) { if (stopped_phase && !stop_snap.done) take_stop_snapshot("after stop"); step_no++; do_action(sc.after_inject[extra_pos++], false); drain(); continue; }
